@@ -561,6 +561,18 @@ def make_ops(rng, version, n_ops, weights=None, probes_after_hostile=False, host
         subs = rng.sample([(22, "Min"), (21, "Off"), (2, "1"), (0, "20.5"), (3, "40")], 3)
         for sub, val in subs:
             gen.emit_line(f"{nid};{cid};1;0;{sub};{val}")
+        if gen.v2 and nid in gen.model.nodes and rng.random() < 0.5:
+            # the controller asks for a value that is right for the NODE's (older) protocol version - which may or may
+            # not be acceptable to the gateway's - for a type the node has reported; then the node wakes up
+            node_floor = tables.version_floor(gen.model.nodes[nid]["version"])
+            sub = rng.choice(subs)[0]
+            if sub <= tables.SETREQ_MAX[node_floor]:
+                value = gen.payload(tables.payload_rule(node_floor, 1, sub), valid=True).rstrip()
+                gen.ops.append(["set", nid, cid, sub, value, {}])
+                action, _exp = gen.model.set_child_value_plan(nid, cid, sub, value)
+                if action == "store" and tables.valid_frame(gen.version, nid, cid, 1, 0, sub, str(value)):
+                    gen.model.store_desired(nid, cid, sub, str(value))
+                gen.emit_line(wake)
         if gen.v2 and rng.random() < flood:
             # a sleeping node that asks a lot between two wake-ups: every withheld answer (also the
             # seventeenth, also identical ones) is due at the next wake-up, oldest first
